@@ -20,6 +20,7 @@ def run(tier):
     navsub = {} if q else {'NKIND = 3': 'NKIND = 5', 'NLEAF = 4': 'NLEAF = 5'}
     jobs += [chrun.Job(M, 'nav', to, subst=dict({'PART = -1': f'PART = {p}'}, **navsub), label=f'nav[skip_ws={p // 4},skip_cm={p // 2 % 2},comment-group={p % 2}]', twin=(p == 7)) for p in range(8)]
     jobs += [chrun.Job(M, 'ancestry', to, subst={'PART = -1': f'PART = {p}'}, label=f'ancestry[node {p}]', twin=(p == 1)) for p in range(7)]
+    jobs += [chrun.Job(M, 'deep_ancestry', to, subst={'PART = -1': f'PART = {p}'}, label=f'deep_ancestry[depth {10 * p}..{10 * p + 9}]', twin=(p == 0)) for p in range(15)]
     jobs += [chrun.Job(M, 'at_offset', to, subst={} if q else {'LENMAX = 2': 'LENMAX = 3'})]
     nkk, ntk = (5, 5) if q else (9, 5)
     jobs += [chrun.Job(os.path.join(ROOT, 'vf/ch/pipeline.py'), 'ktree', 300 if q else 2400, subst={'PART = -1': f'PART = {k}', 'NKK = 6': f'NKK = {nkk}', 'NTK = 5': f'NTK = {ntk}'},
